@@ -1,5 +1,5 @@
 SPECIFICATION Spec
 CONSTANTS
   W = 256
-  ESizes = {1, 2, 3, 4, 12, 64}
+  ESizes = {1, 2, 3, 4, 12, 24, 63, 64, 65, 72}
   Guarded = FALSE
